@@ -301,5 +301,5 @@ def cases(tier):
 def subchecks(tier):
     return [
         Sub(name="gamma", check=check, strategy=cases(tier),
-            examples={"quick": 45, "thorough": 600}, shards={"quick": 8, "thorough": 16}),
+            examples={"quick": 45, "thorough": 350}, shards={"quick": 8, "thorough": 16}),
     ]
